@@ -3,8 +3,9 @@ afkak/kafkacodec.py) with Afkak/Assign.lean, and the Lean monitors Afkak.Monitor
 implementation's outputs.
 
 A scenario is {"kind": "assign", "members": [[id, [topic, ...]], ...] (in listed order), "tp":
-[[topic, [partition, ...]], ...], "relist": [indices]} or a codec case {"kind": "encode"|"decode"|
-"metadata", ...}.  Everything a scenario does is a function of its content, so a stored scenario
+[[topic, [partition, ...]], ...], "relist": [indices]}, a leader history {"kind": "generations", "leader": id, "leader_topics": [...], "gens": [{"members": [...],
+"cluster": [[topic, [partition, ...]], ...]}, ...]} driven through the REAL Coordinator._join_and_sync (harness/lib/assign_leader.py),
+or a codec case {"kind": "encode"|"decode"|"meta-enc"|"meta-dec"|"utf8-enc"|"utf8-dec", ...}.  Everything a scenario does is a function of its content, so a stored scenario
 replays exactly.
 """
 import glob
@@ -20,8 +21,9 @@ TRUSTED = [
     "model of Python str ordering as lexicographic order on code points, of sorted() as insertion sort, of dict/defaultdict as "
     "insertion-ordered association lists, of itertools.cycle as a rotating list, of struct as big-endian two's complement, of Python slices, and of "
     "CPython's strict UTF-8 codec (Afkak/Assign.lean); each is exercised by the correspondence on every run",
-    "harness/props/c15.py: generators, the canonical rendering of assignments, the calls into the real _ConsumerProtocol / KafkaCodec, and the replay of "
-    "the leader's two-call glue of Coordinator._join_and_sync (its AST shape is pinned by harness/consts/assign.py; the coroutine itself belongs to C16/C17)",
+    "harness/props/c15.py: generators, the canonical rendering of assignments, the calls into the real _ConsumerProtocol / KafkaCodec, and harness/lib/assign_leader.py (fake "
+    "client + hand-packed JoinGroup/SyncGroup/Heartbeat responses around one real Coordinator that leads every generation), and the two-call replay of the "
+    "leader's glue on _ConsumerProtocol used for the error paths a real client would retry forever (its AST shape is pinned by harness/consts/assign.py)",
 ]
 ASSUMPTIONS = [
     "member ids are distinct (the group coordinator assigns them) and a topic's partition list has no repeated id: hypotheses of the C15 theorems and "
@@ -198,13 +200,16 @@ def impl_generate(proto, members, tp):
     """-> ("enc", [(id, bytes)]) or (canonical exception line, None)"""
     try:
         out = proto.generate_assignments(impl_members(proto, members), dict((t, list(ps)) for t, ps in tp))
+        return "enc", [(m.member_id, bytes(m.member_metadata)) for m in out]
     except Exception as e:  # noqa: BLE001 - every exception class is an observation
         return exc_line(e), None
-    return "enc", [(m.member_id, bytes(m.member_metadata)) for m in out]
 
 
 def impl_round_robin(proto, members, tp):
-    """The real _round_robin_assignment on the dict generate_assignments would build."""
+    """The real (private) _round_robin_assignment on the dict generate_assignments would build.
+    -> (canonical line, {member: [(topic, [partition])]} or None).  A helper that no longer has the shape this
+    harness knows (renamed, other arguments, other result type) yields the line `shape-changed ...`: a
+    disagreement for this sub-comparison only; the public boundary is still compared and monitored."""
     from afkak.kafkacodec import KafkaCodec
 
     md = {}
@@ -214,10 +219,21 @@ def impl_round_robin(proto, members, tp):
     except Exception as e:  # noqa: BLE001 - a member's own metadata does not decode: an observation, not a crash
         return exc_line(e), None
     try:
-        a = proto._round_robin_assignment(md, dict((t, list(ps)) for t, ps in tp))
+        fn = proto._round_robin_assignment
+    except AttributeError:
+        return "shape-changed _round_robin_assignment is gone", None
+    try:
+        a = fn(md, dict((t, list(ps)) for t, ps in tp))
+    except TypeError as e:
+        return "shape-changed _round_robin_assignment: %s" % e, None
     except Exception as e:  # noqa: BLE001
         return exc_line(e), None
-    plain = [(m, [(t, list(ps)) for t, ps in inner.items()]) for m, inner in a.items()]
+    try:
+        plain = [(str(m), [(str(t), [int(p) for p in ps]) for t, ps in inner.items()]) for m, inner in a.items()]
+        if not all(isinstance(m, str) for m in a):
+            raise TypeError("keys are not member ids")
+    except Exception as e:  # noqa: BLE001
+        return "shape-changed _round_robin_assignment returned %s (%s)" % (type(a).__name__, type(e).__name__), None
     return "asg " + tobs(plain), dict((m, inner) for m, inner in plain)
 
 
@@ -241,9 +257,9 @@ def impl_leader(proto, members, tp):
 def impl_decode(proto, b):
     try:
         d = proto.decode_assignment(b)
+        plain = [(t, [int(p) for p in ps]) for t, ps in d.items()]
     except Exception as e:  # noqa: BLE001
         return exc_line(e), None
-    plain = [(t, [int(p) for p in ps]) for t, ps in d.items()]
     return "map " + tmap(plain), plain
 
 
@@ -288,15 +304,23 @@ def run_assign(proto, sc, tags, batch, res):
     if [i for i, _ in members] != sorted(i for i, _ in members):
         res.count("members_listed_unsorted")
 
-    rr_line, assigned = impl_round_robin(proto, members, tp)
+    try:
+        rr_line, assigned = impl_round_robin(proto, members, tp)
+    except Exception as e:  # noqa: BLE001 - never let a private helper's new shape stop the public comparison
+        rr_line, assigned = "shape-changed %s: %s" % (type(e).__name__, e), None
+    if rr_line.startswith("shape-changed"):
+        res.count("private_helper_shape_changed")
     batch.add("rr %s %s" % (mtok, ttok), sort_outer(rr_line), ("corr", sc, "rr"))
     gen_line, encs = impl_generate(proto, members, tp)
-    wtok = "-" if not members else ";".join(tstr(m.member_id) + ":" + hx(bytes(m.member_metadata)) for m in impl_members(proto, members))
     gen_expect = gen_line if encs is None else "enc " + ("-" if not encs else ";".join(tstr(i) + ":" + hx(b) for i, b in encs))
-    batch.add("genb %s %s" % (wtok, ttok), gen_expect, ("corr", sc, "genb"))
-    lead = impl_leader(proto, members, tp)
-    batch.add("leader %s %s" % (wtok, ttok), lead, ("corr", sc, "leader"))
-    res.count("leader_outcome=" + lead.split(" ")[0] + ("" if lead.startswith(("enc", "need")) else " " + lead.split(" ")[1]))
+    try:
+        wtok = "-" if not members else ";".join(tstr(m.member_id) + ":" + hx(bytes(m.member_metadata)) for m in impl_members(proto, members))
+        batch.add("genb %s %s" % (wtok, ttok), gen_expect, ("corr", sc, "genb"))
+        lead = impl_leader(proto, members, tp)
+        batch.add("leader %s %s" % (wtok, ttok), lead, ("corr", sc, "leader"))
+        res.count("leader_outcome=" + lead.split(" ")[0] + ("" if lead.startswith(("enc", "need")) else " " + lead.split(" ")[1]))
+    except Exception as e:  # noqa: BLE001
+        res.disagreements.append({"component": "assign", "request": "genb/leader", "impl": "harness could not drive the byte-level entry: %s: %s" % (type(e).__name__, e), "model": "", "scenario": sc})
     res.count("outcome=" + gen_line.split(" ")[0] + ("" if gen_line.startswith(("enc", "need")) else " " + gen_line.split(" ")[1]))
     if encs is None:
         batch.add("gen %s %s" % (mtok, ttok), gen_line, ("corr", sc, "gen"))
@@ -342,6 +366,94 @@ def run_assign(proto, sc, tags, batch, res):
     res.sample({"scenario": sc, "impl_decoded": [[i, a] for i, a in obs], "loads": loads}, limit=4)
 
 
+def gen_history(rng):
+    """A history of 2..4 generations led by the same real Coordinator: members come and go and are listed in
+    a fresh order each time, topics gain (rarely lose) partitions, new topics appear."""
+    topics = rng.sample(TOPICS, rng.choice([1, 2, 2, 3]))
+    leader = rng.choice(["worker-a", "m5", "lead", "Z"])
+    leader_topics = rng.sample(topics, rng.randrange(1, len(topics) + 1))
+    others = {}
+    for i in rng.sample(["worker-b", "worker-c", "m1", "m10", "m2", "a", "zz"], rng.randrange(0, 4)):
+        others[i] = rng.sample(topics, rng.randrange(1, len(topics) + 1)) if rng.random() < 0.6 else list(leader_topics)
+    cluster = dict((t, rng.sample(range(0, 12), rng.randrange(1, 7))) for t in topics)
+    gens = []
+    for g in range(rng.choice([2, 2, 3, 4])):
+        if g:
+            for t in list(cluster):
+                r = rng.random()
+                if r < 0.5:  # the operator expands the topic
+                    more = [p for p in range(0, 24) if p not in cluster[t]]
+                    cluster[t] = cluster[t] + rng.sample(more, rng.randrange(1, 5))
+                elif r < 0.58 and len(cluster[t]) > 1:  # deleted and recreated smaller
+                    cluster[t] = cluster[t][: rng.randrange(1, len(cluster[t]))]
+            if rng.random() < 0.4:  # a member joins, maybe with a brand-new topic
+                nid = rng.choice([i for i in ["worker-d", "m3", "b", "y", "m11"] if i not in others] or ["w%d" % g])
+                if rng.random() < 0.5:
+                    nt = rng.choice([t for t in TOPICS if t not in cluster])
+                    cluster[nt] = rng.sample(range(0, 12), rng.randrange(1, 5))
+                    others[nid] = [nt] + rng.sample(topics, rng.randrange(0, len(topics) + 1))
+                else:
+                    others[nid] = rng.sample(topics, rng.randrange(1, len(topics) + 1))
+            if others and rng.random() < 0.25:
+                del others[rng.choice(sorted(others))]
+        members = [[leader, list(leader_topics)]] + [[i, list(sub)] for i, sub in sorted(others.items())]
+        rng.shuffle(members)
+        gens.append({"members": members, "cluster": [[t, list(ps)] for t, ps in sorted(cluster.items())]})
+    return {"kind": "generations", "leader": leader, "leader_topics": leader_topics, "gens": gens}
+
+
+def run_history_sc(proto, sc, batch, res):
+    """Drive the REAL Coordinator._join_and_sync as leader through every generation of the history
+    (harness/lib/assign_leader.py); per generation compare the SyncGroup assignments with the model's
+    leaderAssign applied to that generation's partition map, and evaluate the monitors on what the members
+    decode against the partitions the cluster has in that generation."""
+    from harness.lib import assign_leader
+
+    res.evaluations += 1
+    res.count("history_generations=%d" % len(sc["gens"]))
+    try:
+        recs = assign_leader.run_history(sc["leader"], sc["leader_topics"], sc["gens"])
+    except Exception as e:  # noqa: BLE001
+        res.disagreements.append({"component": "assign-leader", "request": "history", "impl": "driver failed: %s: %s" % (type(e).__name__, e), "model": "", "scenario": sc})
+        return
+    prev = None
+    for g, (gen, rec) in enumerate(zip(sc["gens"], recs), 1):
+        label = "generation %d of the history" % g
+        members, tp = gen["members"], gen["cluster"]
+        ttok = tmap(tp)
+        if rec["encs"] is None or rec["wire"] is None:
+            res.count("history_generation_without_sync")
+            wire = rec["wire"] or [(i, bytes(proto.join_group_protocols(list(sub))[0].protocol_metadata)) for i, sub in members]
+            batch.add("leader %s %s" % (";".join(tstr(i) + ":" + hx(b) for i, b in wire), ttok), "no-sync " + rec["note"][:300], ("corr", sc, "leader@%d" % g))
+            continue
+        encs = rec["encs"]
+        wtok = ";".join(tstr(i) + ":" + hx(b) for i, b in rec["wire"])
+        batch.add("leader %s %s" % (wtok, ttok), "enc " + ";".join(tstr(i) + ":" + hx(b) for i, b in encs), ("corr", sc, "leader@%d" % g))
+        res.count("history_loads_per_generation=%d" % len(rec["loads"] or []))
+        if prev is not None and prev != tp:
+            res.count("history_partition_map_changed")
+        if prev is not None and any(len(dict(prev).get(t, ps)) < len(ps) for t, ps in tp):
+            res.count("history_topic_grew")
+        prev = tp
+        obs, ok = [], True
+        for i, b in encs:
+            dline, dec = impl_decode(proto, b)
+            if dec is None:
+                ok = False
+                res.monitor_failures.append({"what": "%s: a member cannot decode the assignment the leader sent for it: %s" % (label, dline), "scenario": sc, "tags": ["gen-decode-own-raises"]})
+            else:
+                obs.append((i, dec))
+        if not ok:
+            continue
+        batch.add("mon %s %s %s" % (tmembers(members), ttok, tobs(obs)), None, ("mon", sc, label))
+        if rec["leader_got"] is not None:
+            own = dict(obs).get(sc["leader"], [])
+            batch.add("mon-own %s %s" % (tmap(own), tmap(sorted(rec["leader_got"].items()))), "ok", ("mon-own", sc, "%s (leader's on_join_complete, %s)" % (sc["leader"], label)))
+        if g >= 2:
+            res.nontrivial(["history", sc["leader"], sc["gens"][:g]])
+    res.sample({"scenario": sc, "impl_loads": [r["loads"] for r in recs]}, limit=5)
+
+
 def settle(batch, got, res, trace=None):
     """Compare the model's answers with the implementation's; classify monitor answers."""
     for line, exp, meta, g in zip(batch.lines, batch.expect, batch.meta, got):
@@ -366,7 +478,10 @@ def settle(batch, got, res, trace=None):
             res.count("monitor_identical_subscriptions=" + fields["ident"])
             for k, (text, tag) in MON_NAMES.items():
                 if fields[k] != "ok":
-                    res.monitor_failures.append({"what": text, "scenario": sc, "tags": [tag]})
+                    if what:  # a generation of a leader history: judged against the cluster's partitions in that generation
+                        res.monitor_failures.append({"what": "%s: %s" % (what, text), "scenario": sc, "tags": ["gen-" + tag]})
+                    else:
+                        res.monitor_failures.append({"what": text, "scenario": sc, "tags": [tag]})
         elif kind == "mon-own":
             if g1 != "ok":
                 res.monitor_failures.append({"what": "member %r decodes something else than it was assigned" % what, "scenario": sc, "tags": ["decodes-own"]})
@@ -570,6 +685,8 @@ def run_scenarios(scs, res, model, trace=None):
             run_assign(proto, sc, tags, batch, res)
         elif sc["kind"] in ("encode", "decode"):
             run_codec(proto, sc, batch, res)
+        elif sc["kind"] == "generations":
+            run_history_sc(proto, sc, batch, res)
         else:
             run_meta(sc, batch, res)
     if batch.lines:
@@ -629,8 +746,9 @@ def corpus_scenarios():
     return out
 
 
-def generate(rng, n_assign, n_codec):
+def generate(rng, n_assign, n_codec, n_hist=0):
     scs = [gen_assign(rng) for _ in range(n_assign)]
+    scs += [(gen_history(rng), []) for _ in range(n_hist)]
     scs += [(gen_codec(rng) if k % 2 == 0 else gen_meta(rng), []) for k in range(n_codec)]
     return scs
 
@@ -659,13 +777,13 @@ def exhaustive_small(max_members=3):
 
 def _worker(args):
     """One shard of the thorough tier (separate process; its own PRNG derived from seed and shard)."""
-    seed, shard, n_assign, n_codec = args
+    seed, shard, n_assign, n_codec, n_hist = args
     rng = random.Random((seed * 1000003 + shard) * 7919 + 15)
     res = Result()
     if shard == -1:
         run_scenarios(exhaustive_small(), res, core.run_model)
     else:
-        run_scenarios(generate(rng, n_assign, n_codec), res, core.run_model)
+        run_scenarios(generate(rng, n_assign, n_codec, n_hist), res, core.run_model)
     return {"evaluations": res.evaluations, "distinct": list(res.distinct), "hist": res.hist, "traces": res.traces_validated,
             "disagreements": res.disagreements[:5], "monitor_failures": res.monitor_failures[:5], "samples": res.samples[:1]}
 
@@ -682,13 +800,13 @@ def merge(res, part):
         res.sample(s, limit=6)
 
 
-def run_sharded(seed, shards, n_assign, n_codec, res, first_shard=0):
+def run_sharded(seed, shards, n_assign, n_codec, res, first_shard=0, n_hist=0):
     import multiprocessing as mp
 
     workers = min(16, os.cpu_count() or 1, shards)
-    jobs = [(seed, first_shard + k, n_assign, n_codec) for k in range(shards)]
+    jobs = [(seed, first_shard + k, n_assign, n_codec, n_hist) for k in range(shards)]
     if first_shard == 0:
-        jobs.insert(0, (seed, -1, 0, 0))  # the bounded-exhaustive enumeration
+        jobs.insert(0, (seed, -1, 0, 0, 0))  # the bounded-exhaustive enumeration
     with mp.get_context("fork").Pool(workers) as pool:
         for part in pool.imap_unordered(_worker, jobs):
             merge(res, part)
@@ -702,7 +820,10 @@ RULE = (
     "decode_assignment of every encoded member assignment vs the model, the Lean monitors on the decoded implementation output, and a second run with "
     "the members relisted. codec: real encode_sync_group_member_assignment on maps incl. out-of-range values, and decode_assignment on valid, truncated, "
     "damaged and arbitrary bytes, vs the model. non-trivial = assignment scenario that succeeded with >= 2 members and >= 2 partitions handed out, or a "
-    "codec case that produced/parsed a non-empty map; distinct = by content hash. quick: corpus + 5000 assign + 2500 codec; thorough: 64 shards x (12000 + 5000) in up to 16 "
+    "codec case that produced/parsed a non-empty map, or a leader history of >= 2 generations; distinct = by content hash. histories: one REAL "
+    "Coordinator is the leader for 2..4 generations (fake client, real codecs, rebalance triggered through a failing heartbeat); between generations members "
+    "join/leave/are relisted, topics gain or lose partitions, new topics appear; per generation the leader's SyncGroup assignments are compared with the model "
+    "and the monitors are evaluated on what the members decode against the cluster's partition map of THAT generation. quick: corpus + 5000 assign + 2500 codec + 600 histories; thorough: 64 shards x (12000 + 5000 + 1500) in up to 16 "
     "processes plus a bounded-exhaustive enumeration of small inputs (not a complete enumeration of the input space: exhaustive=false)."
 )
 
@@ -714,15 +835,15 @@ def run(ctx, res):
     res.count("corpus_scenarios", len(corp))
     run_scenarios(corp, res, ctx.model)
     if ctx.tier == "thorough":
-        run_sharded(ctx.seed, 64, 12000, 5000, res)
+        run_sharded(ctx.seed, 64, 12000, 5000, res, n_hist=1500)
         res.notes.append("thorough tier includes the bounded-exhaustive enumeration exhaustive_small(): 1..3 members x all subscription subsets of 2 topics x 0..3 partitions per topic x all listing orders (6720 scenarios)")
     else:
-        run_scenarios(generate(ctx.rng, 5000, 2500), res, ctx.model)
+        run_scenarios(generate(ctx.rng, 5000, 2500, 600), res, ctx.model)
     # report shrunk disagreements
     for d in res.disagreements[:3]:
         if isinstance(d.get("scenario"), dict) and d["scenario"].get("kind") == "assign":
             d["shrunk"] = shrink(d["scenario"])
-    res.extra["branch_histogram"] = {k: v for k, v in res.hist.items() if k.startswith(("outcome=", "leader_", "codec_", "meta_", "skip_", "cycle_", "monitor_"))}
+    res.extra["branch_histogram"] = {k: v for k, v in res.hist.items() if k.startswith(("outcome=", "leader_", "history_", "private_", "codec_", "meta_", "skip_", "cycle_", "monitor_"))}
 
 
 def search(ctx, res, broken):
@@ -752,9 +873,9 @@ def search(ctx, res, broken):
     run_scenarios(near, r2, ctx.model)
     if not r2.monitor_failures:
         if ctx.tier == "thorough":
-            run_sharded(ctx.seed, 16, 6000, 0, r2, first_shard=1000)
+            run_sharded(ctx.seed, 16, 6000, 0, r2, first_shard=1000, n_hist=1500)
         else:
-            run_scenarios(generate(rng, 6000, 0), r2, ctx.model)
+            run_scenarios(generate(rng, 6000, 0, 1200), r2, ctx.model)
     return r2.monitor_failures[:3]
 
 
